@@ -420,7 +420,7 @@ int main(int argc, char **argv)
     vp::bound("options", "linelength {10,20,40,80,120} x precision {0,2,9} x compress {0,1}, lossless=true, sep=' ' (30 sets); whole messages behind /a and /a/b0 with " + std::string(T ? "4" : "2") + " rotating option sets per list");
     vp::bound("value_alphabet_V", (long long)V.size());
     vp::bound("lists_plain", "all lists of length 0..2 over V; all of length 3 over " + std::string(T ? "V; all of length 4 over a 22-value sub-alphabet" : "a 22-value sub-alphabet") + "; lists of length 4..12 per type and mixed (cyclic, no accidental runs)");
-    vp::bound("runs", "prefix in sub-alphabet+none x run{i h c f d: delta 0,1,-1,3; T F: constant, alternating; s S constant" + std::string(T ? "; r N constant; starts 0, -2, type maximum-7" : "") + "} x length 3..8 x suffix in sub-alphabet+none" + (T ? "; prefix x suffix additionally over all of V x V" : "") + "; two runs in a row; two adjacent runs sharing their boundary value (all delta pairs, at list start / behind a value); runs whose first step wraps around the integer range; 5..8 values stepping by one across INT_MAX/INT_MIN (32 and 64 bit)");
+    vp::bound("runs", "prefix in sub-alphabet+none x run{i h c f d: delta 0,1,-1,3; T F: constant, alternating; s S constant" + std::string(T ? "; r N constant; starts 0, -2, type maximum-7" : "") + "} x length 3..8 x suffix in sub-alphabet+none" + (T ? "; prefix x suffix additionally over all of V x V" : "") + "; constant runs of 4..7 equal arrays; two runs in a row; two adjacent runs sharing their boundary value (all delta pairs, at list start / behind a value); runs whose first step wraps around the integer range; 5..8 values stepping by one across INT_MAX/INT_MIN (32 and 64 bit)");
     vp::bound("arrays", "every homogeneous array of length 0..4 over 3 values per element type (14 element types), alone and between scalars; arrays of 1..2 (thorough 3) arrays over 6 inner arrays; arrays holding a run of length 3..8 with an optional extra element");
     vp::bound("strings", "every string of length 0..3 over {a \" \\ \\n ' ' % 1} + identifiers + reserved words + one 130-char string, as s and S, alone and between neighbours");
     vp::bound("chars", T ? "every printable ASCII char and C escape, alone and every ordered pair" : "6 chars in V; every printable ASCII char and C escape alone");
@@ -566,6 +566,17 @@ int main(int argc, char **argv)
         }
     }
     if(!g_stop) g_fam_done += "arr ";
+    // constant runs of equal arrays (compressed to "Nx[...]"): 4..7 copies of an empty and of non-empty arrays, alone and between scalars
+    {
+        std::vector<PV> arrs = {pf::Arr({}), pf::Arr({pf::I(0), pf::I(1)}), pf::Arr({pf::I(1), pf::I(2), pf::I(3)}), pf::Arr({pf::C('a'), pf::C('b')}),
+                                pf::Arr({pf::Str("x")}), pf::Arr({pf::Fl(0.5f), pf::Fl(1.5f)}), pf::Arr({pf::mk('T'), pf::mk('F')})};
+        for(auto &a : arrs) for(int k = 4; k <= 7; ++k) for(int ctx = 0; ctx < 4; ++ctx) {
+            List L; if(ctx & 1) L.push_back(pf::I(42));
+            for(int i = 0; i < k; ++i) L.push_back(a);
+            if(ctx & 2) { L.push_back(pf::I(7)); L.push_back(pf::I(8)); }
+            do_list("arr", idx++, L, FEW);
+        }
+    }
     // ---- family "str": strings and symbols
     idx = 0;
     for(auto &s0 : STRINGS) for(char k : {'s', 'S'}) {
